@@ -136,23 +136,30 @@ func (w *KafkaWriter) writingLoop() {
 	for {
 		select {
 		case <-w.batchingLoopDoneCh:
+			// the batching loop pushes nothing anymore: flush what is still buffered before exiting
+			for w.messageBuffer.Length() > 0 {
+				w.writeMessages(w.messageBuffer.PopMultiple(100))
+			}
 			w.runningWorkers.Done()
 			return
 		default:
-			messagesToSend := w.messageBuffer.PopMultiple(100)
-			if len(messagesToSend) == 0 {
-				continue
-			}
-
-			metric := w.newMetric(KAFKAWRITER)
-			metric.AddValue("messages_sent", len(messagesToSend))
-			metric.AddValue("messages_failed", 0)
-
-			w.writeFunction(messagesToSend, &metric)
-
-			monitoring.Send(metric)
+			w.writeMessages(w.messageBuffer.PopMultiple(100))
 		}
 	}
+}
+
+func (w *KafkaWriter) writeMessages(messagesToSend []kafka.Message) {
+	if len(messagesToSend) == 0 {
+		return
+	}
+
+	metric := w.newMetric(KAFKAWRITER)
+	metric.AddValue("messages_sent", len(messagesToSend))
+	metric.AddValue("messages_failed", 0)
+
+	w.writeFunction(messagesToSend, &metric)
+
+	monitoring.Send(metric)
 }
 
 func (w *KafkaWriter) batchingLoop() {
